@@ -2,6 +2,7 @@ package rules
 
 import (
 	"fmt"
+	"go/ast"
 	"go/types"
 	"sort"
 	"strings"
@@ -18,6 +19,7 @@ func c14(r *core.Report) {
 	p.BuildSSA()
 	r.Assumption("behaviour over sequences of handler calls (no write at all, the strict-mode WriteHeader(0) case) is a history property of the wrapper state machine and is not decided")
 	c14Retain(r)
+	c14Implicit(r)
 	mw := p.SSAFuncOf("openapi3filter", "Validator.Middleware")
 	if len(mw.AnonFuncs) != 1 {
 		core.Fail("Validator.Middleware has %d closures, expected 1", len(mw.AnonFuncs))
@@ -489,6 +491,149 @@ func c14Retain(r *core.Report) {
 		}
 		if n == 0 {
 			core.Fail("no Write method found in openapi3filter")
+		}
+	})
+}
+
+// c14Implicit: the first Write fixes the status. net/http sends an implicit 200 with the first
+// Write, after which a WriteHeader call changes nothing; a wrapper that records the status must
+// behave the same, or a late WriteHeader replaces the status the response is validated (and
+// flushed) under.
+func c14Implicit(r *core.Report) {
+	p := r.Prog
+	pkg := p.Pkg("openapi3filter")
+	info := pkg.TypesInfo
+	r.RunRule("C14.implicit", "the first Write fixes the status: in every response wrapper of package openapi3filter whose WriteHeader records the status once (it sets a boolean field of the receiver), Write either calls the receiver's WriteHeader or sets that field itself on every path, so that a WriteHeader after the first Write cannot change the recorded status", 2, func() {
+		type wrap struct {
+			write, hdr *ast.FuncDecl
+		}
+		ws := map[string]*wrap{}
+		var names []string
+		for _, d := range p.AllDecls("openapi3filter") {
+			if d.Recv == nil || len(d.Recv.List) == 0 {
+				continue
+			}
+			n := core.NamedOf(info.TypeOf(d.Recv.List[0].Type))
+			if n == nil {
+				continue
+			}
+			tn := n.Obj().Name()
+			if d.Name.Name != "Write" && d.Name.Name != "WriteHeader" {
+				continue
+			}
+			if ws[tn] == nil {
+				ws[tn] = &wrap{}
+				names = append(names, tn)
+			}
+			if d.Name.Name == "Write" {
+				ws[tn].write = d
+			} else {
+				ws[tn].hdr = d
+			}
+		}
+		sort.Strings(names)
+		for _, tn := range names {
+			w := ws[tn]
+			if w.write == nil || w.hdr == nil || w.write.Body == nil || w.hdr.Body == nil {
+				continue
+			}
+			recvObj := func(d *ast.FuncDecl) types.Object {
+				if len(d.Recv.List[0].Names) == 0 {
+					return nil
+				}
+				return info.ObjectOf(d.Recv.List[0].Names[0])
+			}
+			// the flag(s): boolean fields of the receiver that WriteHeader sets to true
+			flags := map[string]bool{}
+			hr := recvObj(w.hdr)
+			ast.Inspect(w.hdr.Body, func(n ast.Node) bool {
+				as, ok := n.(*ast.AssignStmt)
+				if !ok {
+					return true
+				}
+				for i, l := range as.Lhs {
+					sel, ok := ast.Unparen(l).(*ast.SelectorExpr)
+					if !ok || i >= len(as.Rhs) {
+						continue
+					}
+					if id, ok := ast.Unparen(sel.X).(*ast.Ident); !ok || info.ObjectOf(id) != hr {
+						continue
+					}
+					if v, ok := constBool(info, as.Rhs[i]); ok && v {
+						flags[sel.Sel.Name] = true
+					}
+				}
+				return true
+			})
+			key := "implicit:" + tn
+			if len(flags) == 0 {
+				r.Trivial(key, p.Pos(w.hdr.Pos()), "WriteHeader keeps no once-only flag")
+				continue
+			}
+			// Write: a statement at the top level of the body (possibly under `if !recv.flag`) that calls
+			// recv.WriteHeader or assigns recv.flag = true
+			wr := recvObj(w.write)
+			establishes := func(n ast.Node) bool {
+				found := false
+				ast.Inspect(n, func(m ast.Node) bool {
+					switch x := m.(type) {
+					case *ast.CallExpr:
+						if sel, ok := ast.Unparen(x.Fun).(*ast.SelectorExpr); ok && sel.Sel.Name == "WriteHeader" {
+							if id, ok := ast.Unparen(sel.X).(*ast.Ident); ok && info.ObjectOf(id) == wr {
+								found = true
+							}
+						}
+					case *ast.AssignStmt:
+						for i, l := range x.Lhs {
+							if sel, ok := ast.Unparen(l).(*ast.SelectorExpr); ok && flags[sel.Sel.Name] && i < len(x.Rhs) {
+								if id, ok := ast.Unparen(sel.X).(*ast.Ident); ok && info.ObjectOf(id) == wr {
+									if v, ok := constBool(info, x.Rhs[i]); ok && v {
+										found = true
+									}
+								}
+							}
+						}
+					}
+					return true
+				})
+				return found
+			}
+			ok := false
+			for _, st := range w.write.Body.List {
+				switch x := st.(type) {
+				case *ast.IfStmt:
+					// `if !recv.flag { ... }` without else: the body must establish the flag
+					cond := core.ExprStr(x.Cond)
+					guardIsFlag := false
+					for f := range flags {
+						if strings.Contains(cond, "."+f) && strings.HasPrefix(strings.TrimSpace(cond), "!") {
+							guardIsFlag = true
+						}
+					}
+					if guardIsFlag && x.Else == nil && establishes(x.Body) {
+						ok = true
+					}
+				case *ast.ExprStmt, *ast.AssignStmt:
+					if establishes(x) {
+						ok = true
+					}
+				case *ast.ReturnStmt:
+					// nothing after the first return counts
+				}
+				if _, isRet := st.(*ast.ReturnStmt); isRet {
+					break
+				}
+			}
+			var fl []string
+			for f := range flags {
+				fl = append(fl, f)
+			}
+			sort.Strings(fl)
+			if ok {
+				r.OK(key, p.Pos(w.write.Pos()), "Write marks the header as written ("+strings.Join(fl, ", ")+") before it buffers the body")
+			} else {
+				r.Bad(key, p.Pos(w.write.Pos()), fmt.Sprintf("%s.Write does not mark the header as written (neither a call of its WriteHeader nor %s = true before the body is taken): a WriteHeader call after the first Write then replaces the status, and the response is validated and sent under a status the handler's implicit 200 never had", tn, strings.Join(fl, "/")))
+			}
 		}
 	})
 }
